@@ -30,9 +30,13 @@ def main(argv):
             ids.append(a)
         i += 1
     sdir = os.path.join(ROOT, 'seeded')
+    argv_ids = list(ids)
     ids = ids or sorted(d for d in os.listdir(sdir) if os.path.exists(os.path.join(sdir, d, 'patch.diff')))
     for sid in ids:
         meta = json.load(open(os.path.join(sdir, sid, 'meta.json')))
+        if meta.get('status') == 'superseded' and not argv_ids:
+            print(f'{sid:34s} superseded: {meta.get("superseded_by", "")[:110]}', flush=True)
+            continue
         patch = os.path.join(sdir, sid, 'patch.diff')
         run_props = ALL if allp else (props or meta.get('run_props') or [meta['property']])
         if in_repo:
